@@ -139,6 +139,10 @@ func runERC20Lock(ctx *action.Context, tx action.RawTx) (bool, action.Response) 
 	if err != nil {
 		return helpers.LogAndReturnFalse(ctx.Logger, gov.ErrGetEthOptions, erc20lock.Tags(), err)
 	}
+	if ethTx.To() == nil {
+		// a contract creation names no token contract
+		return false, action.Response{Log: "Token not supported"}
+	}
 	token, err := ethchaindriver.GetToken(ethOptions.TokenList, *ethTx.To())
 	if err != nil {
 		return false, action.Response{
@@ -157,7 +161,7 @@ func runERC20Lock(ctx *action.Context, tx action.RawTx) (bool, action.Response) 
 	if !ok {
 		ctx.Logger.Error("To field of Transaction does not match OneLedger Contract Address")
 		return false, action.Response{
-			Log: "To field of Transaction does not match OneLedger Contract Address" + err.Error(),
+			Log: "To field of Transaction does not match OneLedger Contract Address",
 		}
 	}
 
